@@ -30,7 +30,9 @@ Ones(k) == [i \in 1..k |-> IF i = k THEN 255 ELSE 127]                          
 Pow(k) == [i \in 1..k |-> IF k = 1 THEN 129 ELSE IF i = 1 THEN 1 ELSE IF i = k THEN 128 ELSE 0]  \* 2^(7(k-1))
 Open(k) == [i \in 1..k |-> 127]                                                               \* never terminated
 Padded(k) == [i \in 1..k |-> IF i = k THEN 128 ELSE 0]                                        \* zero, over-long
+Near64(d) == <<1, 127, 127, 127, 127, 127, 127, 127, 127, 128 + (128 - d)>>                   \* 2^64 - d, 1 <= d <= 128
 LengthShapes == [k \in 1..11 |-> Ones(k)] \o [k \in 1..9 |-> Pow(k + 1)] \o <<Open(3), Open(12), Padded(1), Padded(3), <<141>>, <<142>>, <<143>>, <<129>>>>
+                \o <<Near64(1), Near64(4), Near64(5), Near64(12), Near64(16), Near64(128), <<1, 0, 0, 0, 0, 0, 0, 0, 0, 129>>, <<0, 127, 127, 127, 127, 127, 127, 127, 127, 255>>>>
 
 \* signed: bit 6 of the first byte is the sign
 SOnes(k, neg) == [i \in 1..k |-> (IF i = 1 THEN (IF neg THEN 64 ELSE 0) + 63 ELSE 127) + (IF i = k THEN 128 ELSE 0)]
@@ -74,7 +76,7 @@ InContext(c, v) == CASE c = 1 -> v \o <<97, 97, 97>>
                      [] c = 4 -> <<238>> \o Ones(2) \o <<129, 132>> \o v \o <<97, 97>> \* inside an annotation wrapper
                      [] c = 5 -> <<180>> \o v \o <<97, 97, 97>>                        \* inside a list of 4 bytes
 DeclaredLengths == Cat(Cat([T1 \in 1..16 |-> [s \in 1..Len(LengthShapes) |-> [c \in 1..5 |->
-                      Case("binary: declared length", "binary", c = 1 /\ s \in {1, 5, 9, 10}, BVM \o InContext(c, HV(T1 - 1, LengthShapes[s])))]]]))
+                      Case("binary: declared length", "binary", c = 1 /\ s \in {1, 5, 9, 10, 32, 34}, BVM \o InContext(c, HV(T1 - 1, LengthShapes[s])))]]]))
 
 \* a binary local symbol table with a hole
 OddValues == [T \in 1..16 |-> BNull(T - 1)]
